@@ -34,7 +34,7 @@ PROPS = {
                 note="Trusted: the simulator (sim/), go1.26.8 testing/synctest, the stream model. Real code: all of transports/obfs4 and what it imports. TCP, clock, entropy and goroutine scheduling at conn operations are simulated.",
                 technique=TECH + "seeded schedule/chunking search, stream-prefix model oracle, quiescence liveness check"),
     "C02": dict(engine="wire", quick=40, thorough=600, level="exploration", design="DESIGN.md section 4, C02",
-                text="Seeded search over six scenario kinds (genuine control, client with wrong node ID / public key, impostor server forging mark+MAC from the public bridge line with AUTH from another key / random AUTH / low-order Y', on-path single-bit and truncation tampering of every response field, 2-6 concurrent clients on one factory) under all chunkings; oracle: Dial completes iff the peer holds the identity key and the response is intact, fails by the 60 s virtual deadline otherwise, ephemeral representatives pairwise distinct.",
+                text="Seeded search over nine scenario kinds (genuine control, client with wrong node ID / public key, impostor server forging mark+MAC from the public bridge line with AUTH from another key / random AUTH / low-order Y', on-path single-bit and truncation tampering of every response field, 2-6 concurrent clients on one factory, bridge answers that fail to go out, an on-path party that records the genuine answer, cuts the connection and plays the recording back on whatever connection the client's dialer opens next) under all chunkings; oracle: Dial completes iff the peer holds the identity key and the response is intact, fails by the 60 s virtual deadline otherwise, ephemeral representatives pairwise distinct.",
                 note="Trusted: simulator, the independent reference implementation (sim/ref/obfs4ref) used as impostor and for locating response fields. Real code: obfs4 client and server.",
                 technique=TECH + "second-party deviation (impostor / on-path tamper) under seeded chunking and scheduling"),
     "C03": dict(engine="wire", quick=40, thorough=600, level="exploration", design="DESIGN.md section 4, C03",
@@ -82,7 +82,7 @@ PROPS = {
                 note="Trusted: simulator, weave (statement-level yields, sync -> simsync), porcupine v1.3.0, the reference set model. Partial backward clock steps are not generated (undefined by the statement). Data races inside one statement are out of reach.",
                 technique=TECH + "lockstep reference model plus statement-level interleaving search with porcupine linearizability check"),
     "C17": dict(engine="wire", quick=30, thorough=600, level="exploration", design="DESIGN.md section 4, C17",
-                text="A step-by-step reference SOCKS5 client (IPv4 / IPv6 incl. v4-mapped / domains of 1..255 arbitrary bytes, any port, argument maps with escaped ';' '=' '\\', 8-bit bytes, repeated keys, every username/password spill point) under all segmentations with pauses inside the 5 s budget, plus 19 malformed variants (bad versions, nmethods 0, no acceptable method, bad auth version, ulen/plen 0, bad escapes, empty key, key without value, trailing ';', unknown atyp, zero-length domain, BIND/UDP, non-zero RSV, pipelined trailing bytes, truncation, silence > 5 s); oracle: exact Target/Args for conforming exchanges, error plus (nothing | the stage's RFC failure reply) for malformed ones, deadline enforced and disarmed.",
+                text="A step-by-step reference SOCKS5 client (IPv4 / IPv6 incl. v4-mapped / domains of 1..255 arbitrary bytes, any port, argument maps with escaped ';' '=' '\\', 8-bit bytes, repeated keys, every username/password spill point) under all segmentations with pauses inside the 5 s budget, plus 19 malformed variants (bad versions, nmethods 0, no acceptable method, bad auth version, ulen/plen 0, bad escapes, empty key, key without value, trailing ';', unknown atyp, zero-length domain, BIND/UDP, non-zero RSV, pipelined trailing bytes, truncation, silence > 5 s); in half the runs after 1-2 earlier connections (plain, or BIND / UDP / unknown address type / non-zero RSV answered by the front end itself) and/or alongside 1-2 plain connections served at the same time, each judged on its own connection; oracle: exact Target/Args for conforming exchanges, error plus (nothing | the stage's RFC failure reply) for malformed ones, deadline enforced and disarmed.",
                 note="Trusted: simulator, the strict pt-spec argument encoder in the harness. IPv6 targets are compared as addresses (net.IP.Equal), domain targets byte for byte.",
                 technique=TECH + "reference client under seeded segmentation and malformed-message injection on a virtual clock"),
     "C18": dict(engine="disk", quick=30, thorough=600, level="fault_enumeration", design="DESIGN.md section 4, C18",
